@@ -22,12 +22,34 @@ import (
 // the bytes received, and compared with the vector.
 
 type vec15 struct {
-	Cmd    string `json:"cmd"`
-	Conn   string `json:"conn"`
-	Wt     string `json:"wt"`
-	Tok    string `json:"tok"`
-	Effect bool   `json:"effect"`
-	Why    string `json:"why"`
+	Cmd               string `json:"cmd"`
+	Conn              string `json:"conn"`
+	Wt                string `json:"wt"`
+	Tok               string `json:"tok"`
+	Effect            bool   `json:"effect"`
+	Why               string `json:"why"`
+	Base              string `json:"base"`                // the registered type a spelling variant would resolve to
+	AllowedIfResolved bool   `json:"allowed_if_resolved"` // what the token rule of that type allows
+}
+
+var spellVariants = map[string]bool{"verifying_upper": true, "verifying_mixed": true, "verifying_space": true, "verifying_lookalike": true, "nonverifying_mixed": true}
+
+// spelledType returns a spelling of a registered type name that is not the registered name.
+func spelledType(class string, rng *rand.Rand) string {
+	switch class {
+	case "verifying_upper":
+		return "VTYPE"
+	case "verifying_mixed":
+		return []string{"Vtype", "vType", "VtYpE", "vtypE"}[rng.Intn(4)]
+	case "verifying_space":
+		return []string{"vtype ", " vtype", "vtype\t"}[rng.Intn(3)]
+	case "verifying_lookalike":
+		return []string{"vtуpe", "ｖtype", "vtype\u200b", "vtypе"}[rng.Intn(4)] // Cyrillic у / е, fullwidth v, zero-width space
+	case "nonverifying_mixed":
+		return []string{"Ntype", "NTYPE", "nType"}[rng.Intn(3)]
+	}
+
+	return class
 }
 
 type env15 struct {
@@ -225,6 +247,10 @@ func (e *env15) requestLine(v vec15, id, tok string, rng *rand.Rand) (string, st
 			}
 		case "unknown":
 			m["node"], m["worktype"] = "localhost", "nosuchtype"
+		default:
+			if spellVariants[v.Wt] {
+				m["node"], m["worktype"] = "localhost", spelledType(v.Wt, rng)
+			}
 		}
 	case "results":
 		m["unitid"], m["startpos"] = id, 0
@@ -233,7 +259,7 @@ func (e *env15) requestLine(v vec15, id, tok string, rng *rand.Rand) (string, st
 	}
 	if v.Tok != "absent" {
 		m["signature"] = tok
-	} else if !(v.Cmd == "submit" && v.Wt == "remote_sign") && rng.Intn(2) == 0 {
+	} else if !(v.Cmd == "submit" && (v.Wt == "remote_sign" || v.Wt == "verifying_space")) && rng.Intn(2) == 0 {
 		// the plain form cannot carry a signature at all
 		switch v.Cmd {
 		case "submit":
@@ -388,7 +414,22 @@ func (e *env15) runVector(v vec15, inst int, seed int64) error {
 	replay := map[string]any{"vector": v, "instance": inst, "token": tokDesc, "form": form, "line": trunc(line, 900), "reply": trunc(received, 400),
 		"state_evidence": stateWhat, "before": before.Units, "after": after.Units}
 	vk := fmt.Sprintf("%s-%s-%s-%s", v.Cmd, v.Conn, v.Wt, v.Tok)
+	if spellVariants[v.Wt] {
+		// the rule for another spelling of a type name: refused as unknown type, or held to the token rule of the type it runs as
+		switch {
+		case observed && !v.AllowedIfResolved:
+			e.res.violate("C15:unauthorized-"+vk, fmt.Sprintf("submit over %s of work type %q (a spelling of the %s type) with token class %s (%s) was not refused as unknown type "+
+				"and took effect (reply %q; %s) although the token rule of the type it runs as forbids it", v.Conn, fmt.Sprint(line), v.Base, v.Tok, tokDesc, trunc(first, 120), stateWhat), replay)
+		case observed:
+			e.res.count("other_spelling_resolved_within_the_token_rule")
+		default:
+			e.res.count("refusals_confirmed")
+			e.res.count("other_spelling_refused")
+		}
+		v.Effect = observed // nothing further to compare
+	}
 	switch {
+	case spellVariants[v.Wt]:
 	case observed && !v.Effect:
 		e.res.violate("C15:unauthorized-"+vk, fmt.Sprintf("%s over %s on a %s unit/type with token class %s (%s) took effect (reply %q; %s) but must be refused (%s)",
 			v.Cmd, v.Conn, v.Wt, v.Tok, tokDesc, trunc(first, 120), stateWhat, v.Why), replay)
@@ -650,7 +691,7 @@ func stratify15(vecs []vec15, k int, seed int64) []vec15 {
 	}
 	var out []vec15
 	for _, v := range vecs {
-		protected := v.Conn != "unix" && (v.Wt == "verifying" || v.Wt == "remote_sign")
+		protected := v.Conn != "unix" && (v.Wt == "verifying" || v.Wt == "remote_sign" || (spellVariants[v.Wt] && v.Base == "verifying"))
 		keep := protected && (v.Tok == "valid" || v.Tok == "absent")
 		ci := cells[v.Cmd+"|"+v.Conn+"|"+v.Wt]
 		for j := 0; j < k && !keep; j++ {
